@@ -565,9 +565,9 @@ Lemma sort_insert_filter k x l : filter (keyeq k) (sort_insert x l) = filter (ke
 Proof.
   induction l as [|y r IH]; [reflexivity|]. cbn [sort_insert].
   destruct (xltb (fst y) (fst x)) eqn:E; [|reflexivity].
-  cbn [filter] in *. rewrite IH. unfold keyeq at 1 3 4 6.
-  destruct (xeqb (fst y) k) eqn:Ey, (xeqb (fst x) k) eqn:Ex; try reflexivity.
-  apply xeqb_eq in Ey, Ex. rewrite Ey, Ex, xltb_irrefl in E. discriminate.
+  cbn [filter] in *. rewrite IH.
+  destruct (keyeq k y) eqn:Ey, (keyeq k x) eqn:Ex; try reflexivity.
+  unfold keyeq in Ey, Ex. apply xeqb_eq in Ey, Ex. rewrite Ey, Ex, xltb_irrefl in E. discriminate.
 Qed.
 
 Lemma py_sorted_stable k l : filter (keyeq k) (py_sorted l) = filter (keyeq k) l.
@@ -699,7 +699,7 @@ Section Final.
   Lemma final_key_in d u : In (d, u) (map fkey rows) <-> (u < U)%nat /\ d = u_dl (pu u) /\ isnan d = false.
   Proof.
     destruct (combine_main_inv _ _ _ _ _ _ HP Hmain) as (_ & _ & Hc & _ & _).
-    rewrite <- (masked_in (npar_of t) t U d u). rewrite <- Hc.
+    unfold pu. rewrite <- (masked_in (npar_of t) t U d u). rewrite <- Hc.
     split; apply Permutation_in; [|apply Permutation_sym]; apply final_keys_perm.
   Qed.
 
@@ -935,3 +935,47 @@ Proof.
   - exfalso. apply (Hni r0); [now left|assumption].
   - specialize (Hn r0 (or_introl eq_refl)). rewrite E0 in Hn. discriminate.
 Qed.
+
+Lemma final_permutation P U t comb rows exps : 1 <= P ->
+  combine_main P U t = Some (comb, rows, exps) ->
+  Permutation (map fkey rows) (masked U comb) /\
+  forall d u, In (d, u) (map fkey rows) <->
+              (u < U)%nat /\ d = u_dl (per_unique (npar_of t) t u) /\ isnan d = false.
+Proof.
+  intros HP H. split; [eapply final_keys_perm; eassumption|]. intros d u. eapply final_key_in; eassumption.
+Qed.
+
+(* exponent list of the table main produces *)
+Lemma main_exps_nth P U t comb rows exps : 1 <= P ->
+  combine_main P U t = Some (comb, rows, exps) ->
+  length exps = length rows /\
+  forall i, (i < length rows)%nat ->
+    nth i exps NaN = if is_dup rows i then PInf
+                     else xsub (f_dl (nth i rows dummy_f)) (f_dl (nth 0 rows dummy_f)).
+Proof.
+  intros HP H. destruct (combine_main_inv _ _ _ _ _ _ HP H) as (_ & _ & _ & _ & ->).
+  split; [apply prel_exps_length|apply prel_exps_nth].
+Qed.
+
+(* main raises on a table with two unique functions of which one has a variant with a finite
+   description length, because the table has a single line *)
+Lemma crash_refuted :
+  exists U t, (2 <= U)%nat /\ has_nonnan_variant t 0 /\ forall P, 1 <= P -> combine_main P U t = None.
+Proof.
+  exists 2%nat, [mkV (Fin 1) (Fin 2) (Fin 0) (Fin 3) [Fin 0]]. split; [lia|]. split.
+  - exists 0%nat, (mkV (Fin 1) (Fin 2) (Fin 0) (Fin 3) [Fin 0]). repeat split.
+  - intros P HP. apply combine_main_none_iff; [assumption|]. left. cbn. lia.
+Qed.
+
+(* non-vacuity table: NaN variant (j=1), exact DL tie between uniques 0 and 1 (and between the two
+   variants of unique 1), unique 2 repeats the likelihood of unique 0, unique 3 has DL = +inf,
+   unique 4 has no variants, unique 5 only NaN *)
+Definition ex_table : list vrow :=
+  [ mkV (Fin 5) (Fin 2) (Fin 0) (Fin 1) [Fin 10; Fin 0];
+    mkV NaN (Fin 2) (Fin 0) (Fin 1) [Fin 11; Fin 0];
+    mkV (Fin 4) (Fin 3) (Fin 1) (Fin 1) [Fin 12; Fin 1];
+    mkV (Fin 4) (Fin 3) (Fin 1) (Fin 1) [Fin 13; Fin 1];
+    mkV (Fin 5) (Fin 4) (Fin 2) (Fin 1) [Fin 14; Fin 2];
+    mkV PInf (Fin 1) (Fin 3) (Fin 1) [Fin 15; Fin 3];
+    mkV (Fin 9) (Fin 1) (Fin 2) (Fin 1) [Fin 16; Fin 2];
+    mkV NaN (Fin 1) (Fin 5) (Fin 1) [Fin 17; Fin 5] ].
